@@ -83,7 +83,7 @@ def equivalent_documents(run, doc_in, doc_out, opts, label, rnd, counts, kind):
     ok = cli_props.check_output_document(probe, doc_in, doc_out, opts, label, c9)
     if probe.violations:
         run.witness("tampered log (%s) accepted: output skeleton/items differ from the input" % kind,
-                    {"doc": label, "problem": probe.violations[0][0]})
+                    {"doc": label, "problem": probe.violations[0][0], "detail": probe.violations[0][1], "opts": opts})
         return False
     kinds = cli_props.skeleton_kinds(opts)
     for (cn, k1, d1, items_in), (_, _, _, items_out) in zip(clirun.code_streams(doc_in), clirun.code_streams(doc_out)):
@@ -122,9 +122,19 @@ def run():
     rnd = random.Random(common.seed() + 11)
     n_docs = 6 if quick else 40
     n_tamper = 12 if quick else 50
+    import os
+    standin = os.path.join(os.path.dirname(os.path.dirname(os.path.abspath(__file__))), "vlib", "standin_solver")
     optsets = [["-greedy"], ["-greedy", "-size"], ["-greedy", "-partition"], ["-greedy", "-storage", "-push0"]]
-    docs = [(gen.gen_document(rnd, n_contracts=rnd.randrange(1, 3)), optsets[i % len(optsets)]) for i in range(n_docs)]
-    first = cli_props.parallel([(d, o + ["-log"]) for d, o in docs], lambda d, o: clirun.run_cli(d, o, timeout=900))
+    docs = [(gen.gen_document(rnd, n_contracts=rnd.randrange(1, 3)), optsets[i % len(optsets)], None) for i in range(n_docs)]
+    # solver back-end with the greedy bound (-ub-greedy) through the stand-in solver: small documents
+    for i in range(2 if quick else 10):
+        d = gen.gen_document(rnd, n_contracts=1, blocks_per_stream=2, kinds=["short", "short", "zero"], nested=False)
+        env = {"GASOL_VERIF_SOLVER": standin, "GASOL_VERIF_SOLVER_MODE": "optimal" if i % 2 == 0 else "model:3"}
+        docs.append((d, ["-solver", "z3", "-ub-greedy"], env))
+    envs = {id(d): e for d, o, e in docs}
+    first = cli_props.parallel([(d, o + ["-log"], e) for d, o, e in docs],
+                               lambda d, o, e: clirun.run_cli(d, o, timeout=1200, env_extra=e))
+    docs = [(d, o) for d, o, e in docs]
     counts = {"round_trips": 0, "round_trips_identical": 0, "log_entries": 0, "tampered_logs": 0, "tampered_rejected": 0,
               "tampered_accepted_equivalent": 0}
     replay_jobs = []
@@ -141,16 +151,16 @@ def run():
             continue
         log = json.loads(log_text)
         counts["log_entries"] += len(log)
-        replay_jobs.append((doc, opts + ["-optimize-from-log", "the.log"], {"the.log": log_text}))
+        replay_jobs.append((doc, opts + ["-optimize-from-log", "the.log"], {"the.log": log_text}, envs.get(id(doc))))
         meta.append(("roundtrip", label, doc, opts, opt_text, None))
         for t in range(n_tamper):
             tm = tamper(log, rnd)
             if tm is None:
                 continue
             kind, new = tm
-            replay_jobs.append((doc, opts + ["-optimize-from-log", "the.log"], {"the.log": json.dumps(new)}))
+            replay_jobs.append((doc, opts + ["-optimize-from-log", "the.log"], {"the.log": json.dumps(new)}, envs.get(id(doc))))
             meta.append(("tamper", label, doc, opts, opt_text, kind))
-    results = cli_props.parallel(replay_jobs, lambda d, o, extra: clirun.run_cli(d, o, timeout=900, extra_files=extra))
+    results = cli_props.parallel(replay_jobs, lambda d, o, extra, e: clirun.run_cli(d, o, timeout=900, extra_files=extra, env_extra=e))
     by_kind = {}
     for (what, label, doc, opts, opt_text, kind), res in zip(meta, results):
         out_text = res.text_file("_optimized_from_log.json_solc")
